@@ -288,7 +288,7 @@ pub fn run_one(case: &SchedCase, stats: &mut C08Stats) -> Result<(RunRec, Vec<Vi
 
 pub fn run_shard(ctx: &mut Ctx) {
     let mut r = Rng::new(ctx.shard_seed());
-    let quick_n = 100u64;
+    let quick_n = 300u64;
     let mut h = 0u64;
     let mut stats = C08Stats::default();
     loop {
